@@ -64,7 +64,7 @@ class SyntaxUtils:
         """
 
         def att(lst, attr):
-            return [getattr(e, attr) for e in lst]
+            return [getattr(e, attr, None) for e in lst]
 
         def names(lst):
             return [e.name for e in lst if isinstance(e, (pr.ID, pr.Decl))]
